@@ -43,7 +43,8 @@ RULE = ("ops: roundtrip (ADMGs 0-8 nodes with isolated / bidirected-only nodes, 
         "loops see other orders); the VALUE under the latent tag is a bool, the int 1/0, a numpy bool, True/None or a mixture (tag "
         "form_tag_values); small-scope slice: every DAG on <=3 (quick) / <=5 (thorough) nodes x every latent subset; thorough "
         "adds DAGs up to 11 nodes with sampled separation triples. A simplify/evans case is non-trivial when at least one rule changed the graph "
-        "and at least two observed nodes remain; a roundtrip case when it has an edge-less node or >=2 bidirected edges.")
+        "and at least two observed nodes remain; a roundtrip case when it has an edge-less node or >=2 bidirected edges."
+        " A SMALL-SCOPE EXHAUSTIVE stream: every labelled ADMG on <= 3 nodes through the round trip and through evans_simplify with every subset of nodes declared latent, every labelled DAG on <= 3 (thorough: 4) nodes with every latent tagging through simplify_latent_dag.")
 ASSUMPTIONS = [
     "clause 'separation relations among observed nodes are unchanged': proved in full for observed a != b and observed conditioning sets not containing them. The walk formulation used by simplify_dsep_invariant / dsep_iff_msep_projection is proved equal to the textbook simple-PATH definition MG.MConnPath of property C04 (dconn_walk_iff_path, mconn_walk_iff_path), and the clause is restated with it and with the executable C04 model MG.dSeparated (lvdag_dsep_model_eq_projection, simplify_preserves_dsep_model, simplify_dsep_verdict_iff_no_path). What ties MG.dSeparated to y0's are_d_separated is property C04's correspondence check, not C16's; the C16 oracle still cross-checks walk vs path enumeration on every generated case, on the DAG and on the projection",
     "clause 'identifiability verdicts unchanged': proved without a congruence hypothesis for the ID MODEL of property C02 (Y0/Model/Id.lean): id_verdict_equiv_congr (the verdict of `identify` is the same on two graphs that are NxMixedGraph.__eq__, for every pair of admissible topological sorters: the orders networkx returns may differ between the two graphs), simplify_id_verdict, evans_id_verdict, evans_id_verdict_latents. Assumed about networkx: TopoGood (topological_sort of a well-formed acyclic graph returns a list of exactly the nodes). What ties the ID model to y0's identify() is property C02's correspondence check, not C16's; the C16 harness still runs identify_outcomes on the independent projection and on y0's output for sampled queries",
